@@ -202,6 +202,66 @@ MUTANTS = [
     dict(prop="C10", name="gt-wrong-for-adjacent", file="fickling/analysis.py",
          old="        return not isinstance(other, Severity) or other < self",
          new="        return not isinstance(other, Severity) or other.value[0] + 1 < self.value[0]"),
+    # ---- C08
+    dict(prop="C08", name="memo-id-off-by-one", file="fickling/fickle.py",
+         old="                memo_id = len(interpreter.memory)",
+         new="                memo_id = max(len(interpreter.memory) - 1, 0)"),
+    dict(prop="C08", name="run-first-keep-drops-a-pop", file="fickling/fickle.py",
+         old="""                self.insert(-1, Put(321987))  # Put obj in memo
+                self.insert(-1, Pop())  # Pop obj and reduce_res under
+                self.insert(-1, Pop())""",
+         new="""                self.insert(-1, Put(321987))  # Put obj in memo
+                self.insert(-1, Pop())  # Pop obj and reduce_res under"""),
+    dict(prop="C08", name="get-back-wrong-memo-key", file="fickling/fickle.py",
+         old="                self.insert(-1, Get.create(321987))  # Get back obj",
+         new="                self.insert(-1, Get.create(0))  # Get back obj"),
+    dict(prop="C08", name="append-python-forgets-mark", file="fickling/fickle.py",
+         old="""        self.insert(-1, Global.create(module, attr))
+        self.insert(-1, Mark())
+        for arg in args:
+            self.insert(-1, ConstantOpcode.new(arg))""",
+         new="""        self.insert(-1, Global.create(module, attr))
+        if len(args) != 2:
+            self.insert(-1, Mark())
+        for arg in args:
+            self.insert(-1, ConstantOpcode.new(arg))"""),
+    dict(prop="C08", name="run-last-replace-calls-before-pop", file="fickling/fickle.py",
+         old="""                self.insert(-1, Pop())
+                # now the top of the stack should be our original Global, Mark, Unicode,
+                # Tuple setup, ready for Reduce:
+                self.insert(-1, Reduce())""",
+         new="""                self.insert(-1, Reduce())
+                self.insert(-1, Pop())"""),
+    dict(prop="C08", name="magic-int-pop-misplaced-at-index-0", file="fickling/fickle.py",
+         old="        self.insert(-1 if index == -1 else index + 1, Pop())",
+         new="        self.insert(-1 if index == -1 else index + 2, Pop())"),
+    dict(prop="C08", name="function-call-swaps-memo-keys-with-args", file="fickling/fickle.py",
+         old="""        self.insert(-1, Get.create(2))
+        # [func, mark, model]""",
+         new="""        self.insert(-1, Get.create(2 if not constant_args else 1))
+        # [func, mark, model]"""),
+    # ---- C18
+    dict(prop="C18", name="tail-starts-at-target", file="fickling/cli.py",
+         old="            for pickled in stacked_pickled[args.inject_target + 1 :]:",
+         new="            for pickled in stacked_pickled[args.inject_target + 2 :]:"),
+    dict(prop="C18", name="range-test-gt", file="fickling/cli.py",
+         old="            if args.inject_target >= len(stacked_pickled):",
+         new="            if args.inject_target > len(stacked_pickled):"),
+    dict(prop="C18", name="var-id-not-threaded", file="fickling/cli.py",
+         old="                var_id = interpreter.next_variable_id",
+         new="                var_id = 0"),
+    dict(prop="C18", name="result-name-not-indexed-after-third", file="fickling/cli.py",
+         old='result_variable=f"result{i}"',
+         new='result_variable=f"result{min(i, 2)}"'),
+    dict(prop="C18", name="run-last-flag-ignored-for-inner-targets", file="fickling/cli.py",
+         old="                run_first=not args.run_last,",
+         new="                run_first=not args.run_last or args.inject_target > 1,"),
+    dict(prop="C18", name="out-of-range-writes-head-first", file="fickling/cli.py",
+         old="""            if args.inject_target >= len(stacked_pickled):
+                sys.stderr.write(""",
+         new="""            if args.inject_target >= len(stacked_pickled):
+                stacked_pickled[0].dump(sys.stdout.buffer)
+                sys.stderr.write("""),
     # ---- C14
     dict(prop="C14", name="delitem-keeps-ast", file="fickling/fickle.py",
          old="""        del self._opcodes[index]
